@@ -70,6 +70,7 @@ type CloseCli struct {
 func init() {
 	Register(&Scenario{
 		Name:     "close",
+		LazyToo:  true,
 		DescToo:  true,
 		Property: "C18",
 		Cfg:      vsched.Config{Horizon: 10 * time.Second},
